@@ -132,19 +132,26 @@ func fuzzSpace(w *W, f func(c fuzzCase)) {
 	ops := []string{"UNION ALL", "UNION DISTINCT", "UNION", "INTERSECT", "EXCEPT", "INTERSECT DISTINCT", "EXCEPT ALL"}
 	operands := []string{"SELECT 2", "(SELECT 3)", "SELECT a FROM t", "(SELECT 4 UNION ALL SELECT 5)", "3", "(3)", "", "SELECT", "x", "(", "WITH 9 AS y SELECT y"}
 	heads := []string{"SELECT 1", "WITH 1 AS x SELECT x", "WITH c AS (SELECT 1) SELECT * FROM c", "(SELECT 1)", "SELECT x IN (SELECT 1", "INSERT INTO t SELECT 1", "CREATE VIEW v AS SELECT 1", "EXPLAIN SELECT 1", "SELECT * FROM (SELECT 1"}
-	nChain := w.pickN(8000, 150000)
+	nChain := w.pickN(16000, 300000)
 	for k := 0; k < nChain; k++ {
 		idx, mine := w.Case()
 		if !mine {
 			continue
 		}
 		r := NewRng(w.Seed, uint64(idx), 6)
-		parts := []string{pick(r, heads)}
+		head := pick(r, heads)
+		closer := ""
+		if r.Chance(1, 2) { // balanced embeddings whose first operand is itself parenthesised (a union or a single select)
+			first := pick(r, []string{"(SELECT 1 UNION ALL SELECT 2)", "(SELECT 1 UNION DISTINCT SELECT 2)", "(SELECT 1)", "((SELECT 1 UNION ALL SELECT 2) UNION ALL SELECT 3)", "(SELECT 1 INTERSECT SELECT 2)", "SELECT 1"})
+			emb := pick(r, [][2]string{{"", ""}, {"SELECT * FROM (", ")"}, {"CREATE VIEW v AS ", ""}, {"SELECT x IN (", ")"}, {"SELECT EXISTS (", ")"}, {"INSERT INTO t ", ""}, {"EXPLAIN ", ""}, {"(", ")"}, {"WITH c AS (", ") SELECT * FROM c"}, {"SELECT (", ") AS s"}, {"SELECT * FROM t JOIN (", ") AS j ON 1"}})
+			head, closer = emb[0]+first, emb[1]
+		}
+		parts := []string{head}
 		n := 1 + r.Intn(4)
 		for i := 0; i < n; i++ {
 			parts = append(parts, pick(r, ops), pick(r, operands))
 		}
-		s := strings.Join(parts, " ")
+		s := strings.Join(parts, " ") + closer
 		if r.Chance(1, 3) {
 			if ts, ok := spanTexts(s); ok && len(ts) > 1 {
 				s = joinTokens(ts[:1+r.Intn(len(ts)-1)])
